@@ -1268,11 +1268,46 @@ class Mailbox:
         msg_keys = [int(x) for x in self.mailbox.keys()]
         await asyncio.sleep(0)
 
+        # Messages we know whose files are gone have been expunged, by
+        # whatever it was that removed the files - most likely ourselves, killed
+        # between the removal of a file and the commit to the db. They have
+        # to go one by one: only counting the files does not tell when mail
+        # was delivered as well (as many files as before, one of them new),
+        # and we would keep answering for a message that can not be read.
+        #
+        present = set(msg_keys)
+        gone = [key for key in self.msg_keys if key not in present]
+        if gone and len(self.msg_keys) == len(self.uids):
+            logger.warning(
+                "Mailbox: '%s': files of messages %s are gone. Treating the "
+                "messages as expunged.",
+                self.name,
+                gone,
+            )
+            expunges = []
+            for key in sorted(gone, reverse=True):
+                which = self.msg_keys.index(key)
+                del self.msg_keys[which]
+                del self.uids[which]
+                for seq in self.sequences.values():
+                    seq.discard(key)
+                expunges.append(f"* {which + 1} EXPUNGE\r\n")
+            self.num_msgs = len(self.msg_keys)
+            self.num_recent = len(self.sequences["Recent"])
+            self._rebuild_index_dicts()
+            await self._dispatch_or_pend_notifications(expunges)
+        else:
+            gone = []
+
         # If the list of new_msg_keys matches the existing list of
         # message keys then there have been no changes to the folder
         # and this resync is done.
         #
-        if msg_keys == self.msg_keys and len(self.uids) == self.num_msgs:
+        if (
+            not gone
+            and msg_keys == self.msg_keys
+            and len(self.uids) == self.num_msgs
+        ):
             self.mtime = start_mtime
             marked = bool(self.sequences["unseen"] or self.sequences["Recent"])
             # If marked() changed the attributes we need a full commit
@@ -1363,7 +1398,10 @@ class Mailbox:
         )
         self.uids.extend(new_uids)
         if self.uids:
-            self.next_uid = self.uids[-1] + 1
+            # (never backwards: the message that had the highest uid may be
+            # one of those that are gone.)
+            #
+            self.next_uid = max(self.next_uid, self.uids[-1] + 1)
         self._rebuild_index_dicts()
 
         if len(self.uids) != len(self.msg_keys):
@@ -2315,6 +2353,32 @@ class Mailbox:
                 for name in list(seqs.keys()):
                     seqs[name] = set(seqs[name]) - doomed
                 self.set_sequences_in_folder(seqs)
+
+            # And the db must stop knowing them before their files are gone,
+            # for the same reason: if we are killed after a file was removed
+            # and before the commit at the end, and mail is delivered before
+            # we are started again, the new message gets the freed number -
+            # and with it, from the db, the uid and flags of the message that
+            # was expunged. (Killed in between, a message whose file is still
+            # there comes back as a new message.)
+            #
+            kept = [
+                (k, u)
+                for k, u in zip(self.msg_keys, self.uids, strict=False)
+                if k not in doomed
+            ]
+            async with self.db_lock:
+                await self.server.db.execute(
+                    "UPDATE mailboxes SET uids=?, msg_keys=?, num_msgs=? "
+                    "WHERE id=?",
+                    (
+                        compact_sequence([u for _, u in kept]),
+                        compact_sequence([k for k, _ in kept]),
+                        len(kept),
+                        self.id,
+                    ),
+                )
+                await self.server.db.commit()
 
         for msg_key in to_delete:
             # Remove the message from the folder.. and also remove it from our
